@@ -780,7 +780,39 @@ class C03(Prop):
         return make_case(cid, fns, meta={"origin": "generated", "family": "lvalue"})
 
     def fam_switch(self, rng, cid):
-        kind = rng.weighted([("direct", 3), ("sparse", 3), ("ranges", 3), ("big", 3), ("strings", 2), ("fall", 2)])
+        kind = rng.weighted([("direct", 3), ("sparse", 3), ("ranges", 3), ("big", 3), ("strings", 2), ("fall", 2), ("nested", 3)])
+        if kind == "nested":
+            # a switch inside an arm of another switch (the compiler's case stack is shared), labels overlap on purpose
+            ok = sorted(set(rng.choice([0, 1, 2, 3, 5, 9, 100, 2 ** 32]) for _ in range(rng.range(2, 4))))
+            ik = sorted(set(rng.choice([0, 1, 2, 3, 4, 7, 100, -1]) for _ in range(rng.range(2, 5))))
+            inner_at = rng.below(len(ok))
+            def inner(var):
+                return ("switch", var, [(("num", q), [("ret", I(100 + j))]) for j, q in enumerate(ik)] +
+                        ([("default", [("ret", I(199))])] if rng.chance(1, 2) else []))
+            hasd_in = None
+            fns, same = [], []
+            va, vb = I(rng.choice(ok + [7, -5])), I(rng.choice(ik + [6, 50]))
+            isw = inner(L(B))
+            has_in_default = any(a[0] == "default" for a in isw[2])
+            arms = []
+            for j, q in enumerate(ok):
+                body = [isw, ("ret", I(300 + j))] if j == inner_at else [("ret", I(10 + j))]
+                arms.append((("num", q), body))
+            arms.append(("default", [("ret", I(-1))]))
+            # if-chain
+            ichain = "nop"
+            for j, q in reversed(list(enumerate(ik))):
+                ichain = ("if", ("bin", "eq", L(B), I(q)), ("ret", I(100 + j)), ichain)
+            ibody = [ichain] + ([("ret", I(199))] if has_in_default else []) + [("ret", I(300 + inner_at))]
+            ochain = ("ret", I(-1))
+            for j, q in reversed(list(enumerate(ok))):
+                body = ("block", ibody) if j == inner_at else ("ret", I(10 + j))
+                ochain = ("if", ("bin", "eq", L(A), I(q)), body, ochain)
+            pre = [("expr", ("asg", L(A), va)), ("expr", ("asg", L(B), vb))]
+            fns = [pre + [("switch", L(A), arms), ("ret", I(0))], pre + [ochain, ("ret", I(0))],
+                   [("expr", ("asg", L(A), I(ok[inner_at]))), ("expr", ("asg", L(B), vb)), ("switch", L(A), arms), ("ret", I(0))],
+                   [("expr", ("asg", L(A), I(ok[inner_at]))), ("expr", ("asg", L(B), vb)), ochain, ("ret", I(0))]]
+            return make_case(cid, fns, same=[[0, 1], [2, 3]], meta={"origin": "generated", "family": "switch"})
         if kind == "strings":
             labs = [b"a", b"bb", b"", b"zed", b"q"]
             rng_labs = rng.shuffle(labs)[:rng.range(2, 5)]
